@@ -41,8 +41,8 @@ def P(name, nodes, inp, out, runs=None, tags=(), **extra):  # noqa: N802
     return normalise(prog)
 
 
-def R(plan=None, recreq=None, inp=None):  # noqa: N802
-    return dict(input=inp or {'x': 'tokA'}, plan=plan or {}, recreq=recreq or {})
+def R(plan=None, recreq=None, inp=None, recfalsy=()):  # noqa: N802
+    return dict(input=inp or {'x': 'tokA'}, plan=plan or {}, recreq=recreq or {}, recfalsy=list(recfalsy))
 
 
 def variants(prog, runs_list, suffixes=None):
@@ -60,6 +60,7 @@ def normalise_run(r):
     r.setdefault('input', {'x': 'tokA'})
     r.setdefault('plan', {})
     r.setdefault('recreq', {})
+    r.setdefault('recfalsy', [])
     return r
 
 
@@ -80,6 +81,15 @@ def plain_programs():
     out.append(P('demo_model', [N('A'), N('F1'), N('F2', I('p1', 'A')), N('V', I('p1', 'F1'), I('p2', 'F2')),
                                 N('M', I('p1', 'V')), N('O', I('p1', 'M'), I('p2', 'F1'))],
                  'A', 'O', tags=['plain']))
+    out.append(P('long_short', [N('A'), N('L1', I('p1', 'A')), N('L2', I('p1', 'L1')), N('L3', I('p1', 'L2')),
+                                N('S', I('p1', 'A')), N('O', I('p1', 'L3'), I('p2', 'S'))], 'A', 'O', tags=['plain']))
+    out.append(P('long_short2', [N('A'), N('S', I('p1', 'A')), N('L1', I('p1', 'A')), N('L2', I('p1', 'L1')),
+                                 N('L3', I('p1', 'L2')), N('L4', I('p1', 'L3')), N('T', I('p1', 'S')),
+                                 N('O', I('p1', 'L4'), I('p2', 'T'))], 'A', 'O', tags=['plain']))
+    out.append(P('rhombus_generic', [N('A'), N('B', I('p1', 'A'), mode='thread', generic=True),
+                                     N('C', I('p1', 'A'), mode='thread', generic=True),
+                                     N('D', I('p1', 'B'), I('p2', 'C'), mode='coro', generic=True)], 'A', 'D',
+                 tags=['plain', 'generic']))
     out.append(P('diamond_deep', [N('A'), N('B', I('p1', 'A')), N('C', I('p1', 'B')), N('D', I('p1', 'A')),
                                   N('E', I('p1', 'C'), I('p2', 'D'))], 'A', 'E', tags=['plain']))
     return out
@@ -197,6 +207,34 @@ def switch_programs():
              N('C2', I('p1', 'A')), N('O', SW('p1', 'S', [('l1', 'C1'), ('l2', 'C2')], name='sw1'), I('p2', 'C1'))]
     p = P('switch_deep_case_also_input', nodes, 'A', 'O', tags=['switch'])
     out += variants(p, [[R({'S': ['label:l1']})], [R({'S': ['label:l2']})]], ['l1', 'l2'])
+    # the selected case is also an input of ANOTHER node and still in flight when the switch is resolved: only
+    # the case's own completion can wake the switch's consumer (through the switch node)
+    nodes = [N('A'), N('S', I('p1', 'A')), N('C1', I('p1', 'A')), N('C2', I('p1', 'A')),
+             N('W', SW('p1', 'S', [('l1', 'C1'), ('l2', 'C2')], name='sw1')), N('X', I('p1', 'C1')),
+             N('O', I('p1', 'W'), I('p2', 'X'))]
+    p = P('switch_case_other_consumer', nodes, 'A', 'O', tags=['switch', 'shared'])
+    out += variants(p, [[R({'S': ['label:l1']})], [R({'S': ['label:l2']})]], ['l1', 'l2'])
+    # the switch node returns None / a falsy value: no such label
+    p = P('switch_none_label', [N('A'), N('S', I('p1', 'A')), N('C1', I('p1', 'A')), N('C2', I('p1', 'A')),
+                                N('O', SW('p1', 'S', [('l1', 'C1'), ('l2', 'C2')], name='sw1'))], 'A', 'O', tags=['switch'])
+    out += variants(p, [[R({'S': ['none']})], [R({'S': ['falsy']})]], ['none', 'falsy'])
+    # a failing node is the case of two switches, one inside a one-of candidate, one feeding a node outside
+    nodes = [N('A'), N('F', I('p1', 'A')), N('S1', I('p1', 'A')), N('S2', I('p1', 'A')), N('G', I('p1', 'A')),
+             N('K1', SW('p1', 'S1', [('l1', 'F'), ('l2', 'G')], name='inner')), N('K2', I('p1', 'A')),
+             N('M', OO('p1', ['K1', 'K2'])), N('Q1', I('p1', 'A')), N('Q2', I('p1', 'Q1')),
+             N('R', SW('p1', 'S2', [('l1', 'F'), ('l2', 'G')], name='outer'), I('p2', 'Q2')), N('O', I('p1', 'M'), I('p2', 'R'))]
+    p = P('switch_case_shared_with_oneof', nodes, 'A', 'O', tags=['switch', 'oneof', 'shared'])
+    out += variants(p, [[R({'F': ['raise:E1'], 'S1': ['label:l1'], 'S2': ['label:l1']})],
+                        [R({'F': ['raise:E1'], 'S1': ['label:l1'], 'S2': ['label:l2']})],
+                        [R({'S1': ['label:l1'], 'S2': ['label:l1']})]], ['f_both', 'f_inner_only', 'ok'])
+    # the deciding node of a switch outside a one-of is also needed by a candidate and fails; the one-of scope may
+    # execute it first (the main launch loop is parked on Z, which waits for the slow Y)
+    nodes = [N('A'), N('Y', I('p1', 'A')), N('Z', I('p1', 'Y')), N('Q', I('p1', 'A')), N('S', I('p1', 'Q')),
+             N('K1', I('p1', 'S')), N('K2', I('p1', 'A')), N('M', OO('p1', ['K1', 'K2'])), N('C1', I('p1', 'A')),
+             N('C2', I('p1', 'A')), N('W', SW('p1', 'S', [('l1', 'C1'), ('l2', 'C2')], name='sw1')),
+             N('O', I('p1', 'M'), I('p2', 'W'), I('p3', 'Z'))]
+    p = P('switch_decider_shared_with_oneof', nodes, 'A', 'O', tags=['switch', 'oneof', 'shared'])
+    out += variants(p, [[R({'S': ['raise:E1']})], [R({'S': ['label:l1']})]], ['sfails', 'ok'])
     # switch node consumed as a plain input too
     nodes = [N('A'), N('S', I('p1', 'A')), N('C1', I('p1', 'A')), N('C2', I('p1', 'A')),
              N('O', SW('p1', 'S', [('l1', 'C1'), ('l2', 'C2')], name='sw1'), I('p2', 'S'))]
@@ -362,6 +400,19 @@ def rec_programs():
     out += variants(P('rec_dest_fails_two_scopes', nodes, 'A', 'O', tags=['rec', 'oneof', 'shared']),
                     [[R({'D': ['raise:E3']}, recreq={'D': 3})], [R({'S': ['raise:E1']}, recreq={'D': 1})]],
                     ['dfails', 'sfails'])
+    # an inner node of the sub-graph has a side input that is neither upstream nor downstream of the start node;
+    # the sub-graph does not start at the input node
+    nodes = [N('A'), N('UP', I('p1', 'A')), N('S', I('p1', 'UP')), N('SIDE', I('p1', 'A')), N('M', I('p1', 'S'), I('p2', 'SIDE')),
+             N('D', I('p1', 'M')), N('O', RC('p1', 'S', 'D', 3), I('p2', 'UP'), I('p3', 'SIDE'))]
+    out += variants(P('rec_side_input', nodes, 'A', 'O', tags=['rec']),
+                    [[R(recreq={'D': 2})], [R(recreq={'D': 0})]], ['it2', 'it0'])
+    # the payload of next_iteration is falsy (0): it is still a payload
+    nodes = [N('A'), N('S', I('p1', 'A')), N('D', I('p1', 'S')), N('O', RC('p1', 'S', 'D', 1))]
+    out += variants(P('rec_falsy_payload', nodes, 'A', 'O', tags=['rec']),
+                    [[R(recreq={'D': 1}, recfalsy=['D'])]], ['falsy'])
+    nodes = [N('A'), N('S', I('p1', 'A')), N('D', I('p1', 'S'), use_default=True), N('O', RC('p1', 'S', 'D', 1))]
+    out += variants(P('rec_falsy_payload_default', nodes, 'A', 'O', tags=['rec']),
+                    [[R(recreq={'D': 1}, recfalsy=['D'])]], ['falsy'])
     # D8: outside reader of an inside node, deeper than the destination
     nodes = [N('A'), N('S', I('p1', 'A')), N('M', I('p1', 'S')), N('D', I('p1', 'M')),
              N('Q1', I('p1', 'A')), N('Q2', I('p1', 'Q1')), N('Q3', I('p1', 'Q2')), N('Q4', I('p1', 'Q3')),
